@@ -68,6 +68,12 @@ TRANSPARENT = {
     "core::option::Option::<T>::unwrap_or",
     "core::result::Result::<T, E>::unwrap_or",
     # prefixes / suffixes / sub-slices of the same string
+    "core::slice::index::<impl core::ops::index::Index<I> for [T]>::index",
+    "core::slice::<impl [T]>::get",
+    "core::bool::<impl bool>::then_some",
+    "core::bool::<impl bool>::then",
+    "core::option::Option::<core::option::Option<T>>::flatten",
+    "core::option::Option::<T>::is_some_and",
     "core::str::<impl str>::split_once",
     "core::str::<impl str>::strip_prefix",
     "core::str::traits::<impl core::ops::index::Index<I> for str>::index",
@@ -100,6 +106,8 @@ TRANSPARENT = {
 
 # sub-slicing: the result derives from the receiver only (the other arguments are positions)
 INDEXERS = {
+    "core::slice::index::<impl core::ops::index::Index<I> for [T]>::index",
+    "core::slice::<impl [T]>::get",
     "core::str::<impl str>::split_once",
     "core::str::<impl str>::strip_prefix",
     "core::str::traits::<impl core::ops::index::Index<I> for str>::index",
